@@ -2,7 +2,7 @@
 # usage: tools/store_seed.sh <agent out dir (with patch.diff demo.py meta.json)> <ID> [target checks...]
 # copies a sub-agent's confirmed change to seeded/<ID>-m<next> and records which checks are expected to report it
 SRC=$1; ID=$2; shift 2
-k=1; while [ -d /verif/seeded/$ID-m$k ]; do k=$((k+1)); done
+k=1; while [ -d /verif/seeded/$ID-m$k ] || [ -d /verif/seeded/retired/$ID-m$k ]; do k=$((k+1)); done
 D=/verif/seeded/$ID-m$k; mkdir -p $D
 cp $SRC/patch.diff $SRC/demo.py $SRC/meta.json $D/
 if [ $# -gt 0 ]; then
